@@ -39,6 +39,26 @@ Proof.
 Qed.
 Print Assumptions C18_reix_spec.
 
+(* restrict / remove_elements / remove_unused_nodes renumber ALL nodes of the kept elements (first- and second-order
+   meshes): with ix = element_dofs[:, elements], local node r of new cell i has the coordinates of local node r of old cell
+   elements[i], no node of the new table is unused, and the vertex map returned by restrict lists old numbers of nodes that
+   occur in the vertex rows (instance of reix_spec) *)
+Theorem C18_restrict_all_nodes :
+  forall (P : Type) (d : P) (p : list P) (edofs : mat nat) (elements : list nat) (r i : nat),
+    r < length edofs -> i < length elements ->
+    let ix := gen_restrict_ix 0 edofs elements in
+    nth (nth i (nth r (gen_reix_t ix) []) 0) (gen_reix_p d p ix) d = nth (nth (nth i elements 0) (nth r edofs []) 0) p d.
+Proof.
+  intros P d p edofs elements r i Hr Hi ix.
+  assert (Hrow : nth r ix [] = gather 0 (nth r edofs []) elements).
+  { unfold ix, gen_restrict_ix, take_cols. apply (map_nth_in (fun row => gather 0 row elements) edofs r [] []). exact Hr. }
+  assert (Hlen : length ix = length edofs) by (unfold ix, gen_restrict_ix, take_cols; apply map_length).
+  rewrite gen_reix_t_is_model, gen_reix_p_is_model.
+  rewrite (reix_geometry ix d p r i) by (rewrite ?Hlen, ?Hrow; unfold gather; rewrite ?map_length; assumption).
+  rewrite Hrow. unfold gather. rewrite (map_nth_in (fun k => nth k (nth r edofs []) 0) elements i 0 0) by exact Hi. reflexivity.
+Qed.
+Print Assumptions C18_restrict_all_nodes.
+
 (* restrict_subdomains: for every duplicate-free cell list `elements` (ANY order) and every tag, the new tag holds
    exactly the positions i in `elements` of the kept cells that were tagged — new cell i IS old cell elements[i] *)
 Theorem C18_restrict_subdomains :
@@ -420,7 +440,7 @@ Example C18_instance :
   let t := [[0; 1]; [1; 2]; [2; 3]] in
   let t2f := [[0; 2]; [2; 4]; [1; 3]] in
   let F := [[0; 1]; [0; 2]; [1; 2]; [1; 3]; [2; 3]] in
-  let ix := take_cols 0 t [1] in
+  let ix := gen_restrict_ix 0 t [1] in
   gen_reix_uniq ix = [1; 2; 3] /\ gen_reix_t ix = [[0]; [1]; [2]] /\
   gen_restrict_boundary 5 t2f [1] [0; 2; 4] = [0%Z; 2%Z] /\
   gen_restrict_subdomain 2 [1] [1] = [0%Z] /\
